@@ -208,8 +208,9 @@ def k2_fault_schedules(rep: Report, tier: str) -> None:
         missing = sorted(expected - applied)
         present = sorted(expected & applied)
         tied = [m_ for m_ in ("a", "b") if f"meta of {m_}" in present and f"meta_ex of {m_}" in missing]
+        how = "a failed write" if plan.get("fail") else "a kill alone"
         if tied:
-            key = f"warm run accepts the new meta of module {'/'.join(tied)} together with its stale meta_ex (nothing ties meta_ex to meta)"
+            key = f"{r['store']} store{' -n ' + str(r['workers']) if r['workers'] else ''}, {how}: warm run accepts the new meta of module {'/'.join(tied)} together with its stale meta_ex (nothing ties meta_ex to meta)"
         else:
             key = "warm run trusts a cache where the interrupted run left [" + ", ".join(present) + "] updated but [" + ", ".join(missing) + "] stale"
         found.setdefault(key, r)
